@@ -108,7 +108,9 @@ where
     let path_sx = format!("({})", path.chars().map(|c| c.to_string()).collect::<Vec<_>>().join(" "));
     let id = r.below(n_actors);
     let mut events = vec![Evt::Start];
-    for s in 0..n_actors + 1 { for m in 0..3u8 { events.push(Evt::Msg(s, m)); } }
+    // every message code the table knows (register wrappers: 7 codes = all client-facing variants + Internal)
+    let n_msg_codes = if path.contains('S') || path.contains('W') { 7u8 } else { 3u8 };
+    for s in 0..n_actors + 1 { for m in 0..n_msg_codes { events.push(Evt::Msg(s, m)); } }
     for t in 0..3u8 { events.push(Evt::Timeout(t)); events.push(Evt::Random(t)); }
     for ev in &events {
         let states: Vec<u8> = if matches!(ev, Evt::Start) { vec![0] } else { (0..n_states).collect() };
@@ -293,7 +295,10 @@ fn main() {
     for i in 0..n_act {
         let mut rr = r.fork();
         let n_actors = rr.range(1, 3);
-        let p = GenParams { density: 55, ..Default::default() };
+        // the register wrappers (i % 9 >= 5) get a message alphabet of 7 codes: codes 1..=5 are the CLIENT-FACING variants
+        // (Put, Get, PutOk, GetOk, PutFail) — a wrapped server may itself be a client of another server and must be
+        // handed the reply variants too — the others are Internal(..)
+        let p = GenParams { density: 55, msgs: if i % 9 >= 5 { 7 } else { 3 }, ..Default::default() };
         let t = Arc::new(gen_table(&mut rr, &p, n_actors));
         let ns = 4u8;
         match i % 9 {
@@ -343,7 +348,7 @@ fn main() {
     }
     for i in 0..n_sys {
         let mut rr = r.fork();
-        let p = GenParams { actors: (1, 3), density: 35, max_crashes: (0, 1), ..Default::default() };
+        let p = GenParams { actors: (1, 3), density: 35, max_crashes: (0, 1), msgs: if i % 6 >= 3 { 7 } else { 3 }, ..Default::default() };
         let spec = gen_sys(&mut rr, &p);
         let n = spec.tables.len();
         let sample = i < 2;
